@@ -108,6 +108,35 @@ def describe(body, e, args_param, depth=0):
     e = strip_refs(e)
     if depth > 10:
         return Descriptor("unknown", None, text="deep")
+    # the success payload of a private helper that was handed the operand list and returns one of its operands
+    # (`deciding_operand(data, args)?`): described inside the helper, at its return
+    hx = e
+    for _ in range(4):
+        if hx[0] == "field" and hx[2] == 0 and isinstance(hx[1], tuple) and hx[1][0] == "downcast" and hx[1][2] in ("Some", "Ok", "Continue"):
+            hx = strip_refs(hx[1][1])
+        elif hx[0] == "call" and hx[1] and hx[1].get("path", "").endswith("as std::ops::Try>::branch") and hx[2]:
+            hx = strip_refs(hx[2][0])
+        else:
+            break
+    if hx[0] == "call" and hx[1] and hx[1].get("local") and depth < 4:
+        cb = body.facts.body(hx[1]["key"])
+        cap = [i + 1 for i, a in enumerate(hx[2]) if strip_refs(a) == ("arg", args_param)]
+        if cb is not None and cb.kind == "fn" and len(cap) == 1:
+            r = strip_refs(cb.trace(0))
+            alts = [strip_refs(x) for x in r[2]] if r[0] == "phi" else [r]
+            ds = []
+            for a in alts:
+                while a[0] == "agg" and a[1].get("variant") in ("Ok", "Some") and a[2]:
+                    a = strip_refs(a[2][0])
+                if (a[0] == "agg" and a[1].get("variant") in ("Err", "None")) or (a[0] == "call" and a[1] and "from_residual" in a[1].get("path", "")):
+                    continue
+                ds.append(describe(cb, cb.xtrace_expr(a) if hasattr(cb, "xtrace_expr") else a, cap[0], depth + 1))
+            known_ = [d for d in ds if d.kind in ("elem", "fixed") and d.view is not None and d.view[0] != "unknown"]
+            if known_:
+                if len(known_) == len(ds) and all(repr(d) == repr(ds[0]) for d in ds):
+                    return ds[0]
+                # one of several operands of the list: may be any of them
+                return Descriptor("elem", ("all",), iteration=("helper-return", hx[1]["key"]), src=hx)
     # positions inside a chunk / slice pattern:  (*X)[i of n]
     if e[0] == "cindex":
         inner = describe(body, e[1], args_param, depth + 1)
